@@ -370,6 +370,9 @@ def run(ctx):
     from engine.widearith import wide_product
     n_wp = wide_product(ctx, prog, eff)
     ctx.require(n_wp >= 40, 'only %d widened 32-bit products found' % n_wp)
+    from engine.fixture import generic_fixture as _gf4
+    from engine.effects import Effects as _Ef4
+    _gf4(ctx, [('WIDE-PRODUCT', lambda c_, p_: wide_product(c_, p_, _Ef4(p_)), 'bad_wideproduct')])
 
     from rules.C01 import varint_rule
     varint_rule(ctx, prog)
